@@ -271,9 +271,16 @@ func (configgen *ConfigGeneratorImpl) deltaFromServiceDiff(
 	}
 
 	for _, service := range allServices {
-		if _, ok := serviceClusters[service.Hostname.String()]; !ok {
+		h := service.Hostname.String()
+		if _, ok := serviceClusters[h]; !ok {
 			// this is a service we don't currently have and we should
 			services = append(services, service)
+		} else if prev := proxy.PrevSidecarScope.GetService(service.Hostname); prev != nil && !prev.Ports.Equals(service.Ports) {
+			// a service we have is imported with other ports (sidecar egress listener port, virtual service destination
+			// port): rebuild it. The clusters we have for it that are not built again are removed.
+			services = append(services, service)
+			deletedClusters = append(deletedClusters, serviceClusters[h].UnsortedList()...)
+			deletedClusters = append(deletedClusters, subsetClusters[h].UnsortedList()...)
 		}
 	}
 	// allServices is a map: keep the order of the new services (and so of the generated clusters) stable.
